@@ -5,7 +5,7 @@
 From TV Require Import Base.Prelude Base.Utf8 Base.Winnow Gen.Consts Spec.Abnf Spec.Lex Spec.Defs Spec.Syntax.
 From TV Require Import Model.Trivia Model.Strings Model.Datetime Model.Numbers Model.Tree Model.Parse Model.Document.
 From TV Require Import Proofs.LexEquivBase Proofs.GrammarBase Proofs.GrammarValueBase Proofs.GrammarValueSound Proofs.GrammarValueComplete.
-From TV Require Import Proofs.ConstsOk Proofs.NoPanicBase Proofs.NoPanicLex Proofs.NoPanicValue Proofs.NoPanicState Proofs.NoPanicDoc.
+From TV Require Import Proofs.Eoi Proofs.ConstsOk Proofs.NoPanicBase Proofs.NoPanicLex Proofs.NoPanicValue Proofs.NoPanicState Proofs.NoPanicDoc.
 From TV Require Import Proofs.SpansDefs Proofs.SpansBase Proofs.SpansLex Proofs.SpansValue Proofs.SpansState Proofs.SpansDoc
                        Proofs.SpansExact Proofs.SpansReparse Proofs.SpansUtf8 Proofs.SpansUtf8Lex Proofs.SpansBoundary
                        Proofs.SpansBd Proofs.SpansBdDoc Proofs.SpansNodes.
@@ -44,7 +44,7 @@ Section S.
     - apply vfollow_nil.
     - exact Hok.
     - cbn [new_input depth]. eapply within_le; [|exact Hwi]. lia.
-    - exists v'. split; [|congruence]. unfold parse_value_raw, parse_all, bind. rewrite Cv, adv_all. reflexivity.
+    - exists v'. split; [|congruence]. unfold parse_value_raw. rewrite parse_all_eoi_unfold, Cv, adv_all. reflexivity.
   Qed.
 
   (* ---- keys --------------------------------------------------------------------------------------------------------- *)
